@@ -252,7 +252,8 @@ Definition udec_o (l : list (orow utype)) (t : utype) (b : bytes) : option N :=
 
 Record scase := { s_id : N; s_duty : dutytype; s_prefix : packed;
                   s_oracle : list (orow stype);
-                  s_expect : option stype }.               (* Go type returned, None = error *)
+                  s_expect : option stype;                 (* Go type returned, None = error *)
+                  s_verify : option vuse }.                (* what the real parsigex verifier did with the value; None = no value, or it panicked *)
 Record ucase := { u_id : N; u_duty : dutytype; u_prefix : packed;
                   u_oracle : list (orow utype); u_expect : option utype }.
 
@@ -263,7 +264,13 @@ Definition check_scase (c : scase) : list N :=
   match r, s_expect c with
   | None, None => []
   | Some (t, 0), _ => [s_id c]
-  | Some (t, _), Some t' => if stype_eqb t t' then [] else [s_id c]
+  | Some (t, _), Some t' =>
+      if stype_eqb t t' then
+        match s_verify c, verifier_use t with
+        | Some VNotEth2, VNotEth2 | Some VRan, VRan => []
+        | _, _ => [s_id c]
+        end
+      else [s_id c]
   | _, _ => [s_id c]
   end.
 Definition check_ucase (c : ucase) : list N :=
